@@ -65,6 +65,12 @@ A64 = [
     ("ldr {X}, [{A}], #{I}", "A", "XA", False), ("ldr {X}, [{A}, #{I}]!", "A", "XA", False),
     ("str {X}, [{A}], #{I}", "XA", "A", False), ("str {X}, [{A}, #{I}]!", "XA", "A", False),
     ("ldp {X}, {Y}, [{A}, #{I}]", "A", "XY", False), ("stp {X}, {Y}, [{A}, #{I}]", "XYA", "", False),
+    # SIMD structure loads: post-indexed by an immediate or by a REGISTER {P} (the base is read, and written back by an
+    # amount that only the register knows).  {P} is drawn from registers that no template writes: OSACA does not count
+    # the post-index register among the sources (observed, notes/C03Roles.md), so a producer of {P} is left out here.
+    ("ld1 {{{VX}}}, [{A}], {P}", "AP", "XA", False), ("ld1 {{{VX}}}, [{A}], {P}", "AP", "XA", False),
+    ("ld1r {{{VX}}}, [{A}], {P}", "AP", "XA", False), ("ld1 {{{VX}}}, [{A}], #16", "A", "XA", False),
+    ("ld1 {{{VX}}}, [{A}]", "A", "X", False),
     # the stack pointer as an ordinary register, as memory base and with write-back
     ("sub sp, sp, #{I}", "S", "S", False), ("add sp, sp, #{I}", "S", "S", False), ("mov {A}, sp", "S", "A", False),
     ("add {A}, sp, #{I}", "S", "A", False), ("str {X}, [sp, #{I}]", "XS", "", False), ("ldr {X}, [sp, #{I}]", "S", "X", False),
@@ -150,9 +156,11 @@ def gen(rng, isa, n, npool=3, flags=False):
                    "C": "%s%d" % (w, b["C"]), "X": "%s%d" % (fp, v["X"]), "Y": "%s%d" % (fp, v["Y"]), "Z": "%s%d" % (fp, v["Z"]),
                    "W": "%s%d" % (fp, v["W"]), "VX": "v%d.2d" % v["X"], "VY": "v%d.2d" % v["Y"], "VZ": "v%d.2d" % v["Z"],
                    "I": str(rng.choice([8, 16, 32]))}
+            pidx = rng.choice([12, 13, 14, 15])                      # post-index register: outside the pool 1..11
+            sub["P"] = "x%d" % pidx
             lines.append(fmt.format(**sub))
             ids = {"A": ("g", b["A"]), "B": ("g", b["B"]), "C": ("g", b["C"]), "X": ("v", v["X"]), "Y": ("v", v["Y"]),
-                   "Z": ("v", v["Z"]), "W": ("v", v["W"]), "S": ("g", 31)}
+                   "Z": ("v", v["Z"]), "W": ("v", v["W"]), "S": ("g", 31), "P": ("g", pidx)}
             reads = {ids[c] for c in rd} | frs
             writes = {ids[c] for c in wr} | fws
             roles.append((reads, writes))
@@ -160,7 +168,7 @@ def gen(rng, isa, n, npool=3, flags=False):
 
 
 def writeback_regs(line, roles_i):
-    """architectural ids written by `line` through address write-back (pre-index `]!` / post-index `], #imm`)"""
+    """architectural ids written by `line` through address write-back (pre-index `]!` / post-index `], #imm` or `], xN`)"""
     if "]!" not in line and "]," not in line:
         return set()
     base = line.split("[")[1].split("]")[0].split(",")[0].strip()
